@@ -46,14 +46,16 @@ func genericGuards(r *Run) {
 }
 
 func checkC02(r *Run) { genericGuards(r) }
-func checkC04(r *Run) { genericGuards(r) }
+func checkC04(r *Run) {
+	genericGuards(r)
+	checkBlame(r, protoScope, 95)
+}
 func checkC05(r *Run) { genericGuards(r) }
 func checkC06(r *Run) { genericGuards(r) }
 func checkC07(r *Run) {}
 func checkC08(r *Run) { genericGuards(r) }
 func checkC09(r *Run) { genericGuards(r) }
 func checkC10(r *Run) { genericGuards(r) }
-func checkC11(r *Run) { genericGuards(r) }
 func checkC12(r *Run) { genericGuards(r) }
 func checkC13(r *Run) { genericGuards(r) }
 func checkC15(r *Run) { genericGuards(r) }
